@@ -8,14 +8,16 @@ SPEC = {
                   "at retained heights and of large synthetic states (multi-chunk, empty values, contract stores) imported with "
                   "RecoverSnapshot2 must reproduce root and full contents; (c) byte/bit flips stratified over the archive, truncations at "
                   "512-byte boundaries and random offsets, chunk drop/duplicate/reorder/foreign chunk: either accepted with exactly the "
-                  "advertised root and contents, or refused with an empty target db; a panic is a violation.",
+                  "advertised root and contents, or refused with an empty target db; a panic is a violation; (d) an end-to-end fast sync (fast.go's functions in fast.go's order) from a straight and a reorged server must "
+                  "yield exactly the canonical state and a node that keeps accepting the canonical blocks.",
     "level_note": "the state snapshot path is RecoverSnapshot2 as fast sync calls it; snapshot download/manifest handling over IPFS is not executed",
     "rule": "case = one height replayed or one import attempt; distinct_nontrivial = distinct non-empty diffs + distinct corrupted archives (snapshot, class, content hash)",
     "jobs": [Job("sync", "verifsim", "^TestVerifC11$", shards=(8, 16), timeout=(900, 3600))],
     "floors": {"diffs_replayed": (2000, 20000), "diffs_nonempty": 200, "server_reorgs": 100, "snapshot_roundtrips": 20, "max_chunks_in_one_archive": 2,
                "corruption:byte-flip": (2000, 20000), "corruption:truncate-512": 300, "corruption:truncate-random": 100, "corruption:chunk-drop": 20,
                "corruption:chunk-duplicate": 20, "corruption:chunk-reorder": 4, "corruption:chunk-from-other-archive": 10,
-               "outcome:refused": 1000, "outcome:accepted": 50},
+               "outcome:refused": 1000, "outcome:accepted": 50,
+               "fast_syncs_completed:straight-server": 20, "fast_syncs_completed:reorged-server": 20},
     "parallel": 16,
     "assumptions": ["consensus config V12"],
 }
